@@ -104,8 +104,8 @@ def main():
             for l in open('/verif/properties.jsonl'):
                 p = json.loads(l)
                 if p['id'] == pid: title = p['title']
-            meta = {'property': pid, 'property_title': title, 'round': 6,
-                    'origin': 'independent sub-agent given only the property text, a list of the already known regressions to avoid, and a scratch worktree; theme: mutK = two cooperating sites, mutL = unusual configuration or long history',
+            meta = {'property': pid, 'property_title': title, 'round': int(os.environ.get('SEED_ROUND', '6')),
+                    'origin': 'independent sub-agent given only the property text, a list of the already known regressions to avoid, and a scratch worktree; theme: ' + os.environ.get('SEED_THEME', 'mutK = two cooperating sites, mutL = unusual configuration or long history'),
                     'needs_to_manifest': 'see notes.md',
                     'confirmed_by_me': dict(out, base_commit=head + ' (scratch worktree of /repo)'),
                     'demo_note': 'demo projects depend on bumpalo by path /repo: apply patch.diff to /repo (git -C /repo apply ...), run the demo command, then git -C /repo checkout -- .'}
